@@ -856,6 +856,9 @@ func (e *Exec) convertAssign(st *State, v Value, to types.Type) Value {
 			case rSlice:
 				return SliceVal{tZero, tZero, tZero, tZero, to}
 			case rRef:
+				if et, ok := interiorElem(to); ok {
+					return ptrFromTerm(tZero, et, to)
+				}
 				return Scalar{tZero, to}
 			}
 		}
